@@ -84,23 +84,21 @@ def check(run):
         names = [q.callee_name(x.call).split('::')[-1] if (q.callee_name(x.call) or '').startswith('sim::aux::') else 'payload' for x in seqf]
         order_ok = names == ['write_ip_header', 'write_%s_header' % kind, 'payload'] and q.flat_ordered(f, wsf + seqf)
         run.check(order_ok, 'R14', 'record-body', PC + '::log_' + kind, f.loc(), 'after the record header the body is not exactly ip header, %s header, payload (found %s)' % (kind, names), 'ip header, transport header, payload, in that order')
-        seq = [x.call for x in seqf] if all(x.owner is f for x in seqf) else []
-        if seqf and not seq:
-            run.unrecognised('R14', 'record-body', PC + '::log_' + kind, f.loc(), 'the ip/transport header writes were moved into a helper: argument rules cannot be evaluated')
-        if len(seq) == 3:
-            a3, a4 = q.render(f, seq[0]['args'][3]), q.render(f, seq[0]['args'][4])
-            run.check(a3 == 'src.address().to_v4()' and a4 == 'dst.address().to_v4()', 'R14', 'ip-addresses', PC + '::log_' + kind, f.loc(seq[0]),
+        # argument rules: each call is read in its owner (log_* itself or a helper), arguments in the caller's terms
+        if len(seqf) == 3:
+            ipx, trx, pax = seqf
+            a3, a4 = ipx.arg(3), ipx.arg(4)
+            run.check(a3 == 'src.address().to_v4()' and a4 == 'dst.address().to_v4()', 'R14', 'ip-addresses', PC + '::log_' + kind, ipx.owner.loc(ipx.call),
                       'the IP header takes its addresses from %s / %s, not from the true source and destination endpoints handed in by the socket (packet::from is rewritten by NATs and survives in retransmitted packets)' % (a3, a4),
                       'addresses from the src/dst endpoints passed by the socket')
-            run.check(q.render(f, seq[0]['args'][1]) == 'packet_size', 'R14', 'ip-total-length', PC + '::log_' + kind, f.loc(seq[0]), 'IP total length is %s' % q.render(f, seq[0]['args'][1]), 'IP total length = packet_size')
-            run.check(q.int_value(seq[0]['args'][2]) == (6 if kind == 'tcp' else 17), 'R14', 'ip-protocol', PC + '::log_' + kind, f.loc(seq[0]), 'wrong IP protocol number', 'protocol %d' % (6 if kind == 'tcp' else 17))
-            pa = seq[2]['args']
-            run.check(q.render(f, pa[1]) == 'p.buffer.size()' and 'p.buffer.data()' in q.render(f, pa[0]), 'R14', 'payload-bytes', PC + '::log_' + kind, f.loc(seq[2]), 'payload written is not p.buffer.data()[0..size)', 'writes p.buffer.data(), p.buffer.size()')
+            run.check(ipx.arg(1) == 'packet_size', 'R14', 'ip-total-length', PC + '::log_' + kind, ipx.owner.loc(ipx.call), 'IP total length is %s' % ipx.arg(1), 'IP total length = packet_size')
+            run.check(q.int_value(ipx.call['args'][2]) == (6 if kind == 'tcp' else 17), 'R14', 'ip-protocol', PC + '::log_' + kind, ipx.owner.loc(ipx.call), 'wrong IP protocol number', 'protocol %d' % (6 if kind == 'tcp' else 17))
+            run.check(pax.arg(1) == 'p.buffer.size()' and 'p.buffer.data()' in pax.arg(0), 'R14', 'payload-bytes', PC + '::log_' + kind, pax.owner.loc(pax.call), 'payload written is not p.buffer.data()[0..size)', 'writes p.buffer.data(), p.buffer.size()')
             if kind == 'udp':
-                run.check(q.linform(f, seq[1]['args'][1], sub) == ({'p.buffer.size()': 1}, 0), 'R14', 'udp-length-arg', PC + '::log_udp', f.loc(seq[1]), 'UDP header length argument is not the payload size', 'payload size (+8 inside write_udp_header)')
+                run.check(q.linform(trx.owner, trx.call['args'][1], q.const_local_subst(trx.owner), names=trx.names) == ({'p.buffer.size()': 1}, 0), 'R14', 'udp-length-arg', PC + '::log_udp', trx.owner.loc(trx.call), 'UDP header length argument is not the payload size', 'payload size (+8 inside write_udp_header)')
             else:
-                run.check(q.render(f, seq[1]['args'][3]) == 'p.byte_counter', 'R14', 'tcp-seq-arg', PC + '::log_tcp', f.loc(seq[1]), 'TCP sequence number is not p.byte_counter', 'sequence = p.byte_counter')
-            run.check(q.render(f, seq[1]['args'][1 if kind == 'tcp' else 2]) == 'p.from.port()', 'R14', 'src-port', PC + '::log_' + kind, f.loc(seq[1]), 'source port is not the sender\'s port', 'source port = p.from.port()')
+                run.check(trx.arg(3) == 'p.byte_counter', 'R14', 'tcp-seq-arg', PC + '::log_tcp', trx.owner.loc(trx.call), 'TCP sequence number is not p.byte_counter', 'sequence = p.byte_counter')
+            run.check(trx.arg(1 if kind == 'tcp' else 2) == 'p.from.port()', 'R14', 'src-port', PC + '::log_' + kind, trx.owner.loc(trx.call), 'source port is not the sender\'s port', 'source port = p.from.port()')
         # timestamp: accepted idiom only, identical in both
         casts32 = [(g, n) for g in ctxs for n in g.all_nodes() if n['k'] == 'cast' and n.get('explicit') and 'uint32_t' in g.ty(n)]
         ok_ts = True
@@ -129,7 +127,8 @@ def check(run):
     for hname, hsz in (('write_udp_header', 8),):
         f = fx.fn1('sim::aux::' + hname)
         run.touch(f)
-        ok = any(n['k'] == 'bin' and n['op'] == '+' and q.linform(f, n) == ({'size': 1}, hsz) for n in f.all_nodes())
+        pn = f.params[1]['name'] if len(f.params) > 1 else 'size'      # the payload-size parameter, whatever it is called
+        ok = any(n['k'] == 'bin' and n['op'] == '+' and q.linform(f, n) == ({pn: 1}, hsz) for n in f.all_nodes())
         run.check(ok, 'R14', 'udp-length', 'sim::aux::write_udp_header', f.loc(), 'UDP length field is not sizeof(udp_header) + size', 'length = 8 + payload')
 
     run.clause('every transmission is logged once before it leaves: TCP payload/EOF only through send_packet; UDP in send_to_impl; with true addresses')
